@@ -130,6 +130,18 @@ Theorem bai_bin_in_bins :
 Proof. exact bai_bin_in_bins_gen. Qed.
 Print Assumptions bai_bin_in_bins.
 
+(** End to end for BAM indexing: the bin of a placed record is in the bin list
+    of every query interval that overlaps its alignment. *)
+Theorem record_bin_in_query_bins :
+  forall flags pos c sc b2 e2,
+    spec_decode c = Some sc -> 0 <= pos ->
+    pos < spec_end flags pos sc <= 2 ^ 29 ->
+    0 <= b2 -> b2 < e2 <= 2 ^ 29 ->
+    pos < e2 -> b2 < spec_end flags pos sc ->
+    exists k l, record_bin flags pos c = Ok k /\ overlapping_bins_for b2 e2 = Ok l /\ In k l.
+Proof. exact record_bin_in_query_bins_gen. Qed.
+Print Assumptions record_bin_in_query_bins.
+
 (** CSI: reg2bin and reg2bins in uint32 arithmetic are the functions of the
     CSI specification for EVERY geometry with depth <= 10 and
     min_shift + 3*depth <= 62. *)
@@ -178,6 +190,38 @@ Theorem csi_bin_contains :
       bin_lo ms depth (Z.of_nat m) i <= b /\ e <= bin_hi ms depth (Z.of_nat m) i.
 Proof. exact csi_bin_contains_spec. Qed.
 Print Assumptions csi_bin_contains.
+
+(** ... it is the smallest such bin: no bin of a finer level contains the interval. *)
+Theorem csi_bin_smallest :
+  forall b e ms depth, 0 <= ms -> 0 <= depth -> 0 <= b < e -> e <= 2 ^ (ms + 3 * depth) ->
+    exists m i, (m <= Z.to_nat depth)%nat /\ spec_csi_reg2bin b e ms depth = geo8 m + i /\
+      bin_lo ms depth (Z.of_nat m) i <= b /\ e <= bin_hi ms depth (Z.of_nat m) i /\
+      forall j i', (m < j <= Z.to_nat depth)%nat ->
+        ~ (bin_lo ms depth (Z.of_nat j) i' <= b /\ e <= bin_hi ms depth (Z.of_nat j) i').
+Proof. exact csi_bin_smallest_spec. Qed.
+Print Assumptions csi_bin_smallest.
+
+(** The Go bin lists themselves (uint32 arithmetic), for every geometry: no
+    bin twice, and exactly the bins whose interval meets the query. *)
+Theorem csi_model_bins_exact :
+  forall b e ms depth,
+    0 <= ms -> 0 <= depth <= 10 -> ms + 3 * depth <= 62 ->
+    0 <= b <= 2 ^ (ms + 3 * depth) -> 1 <= e <= 2 ^ (ms + 3 * depth) ->
+    exists l, csi_reg2bins b e ms depth = Ok l /\ NoDup l /\
+      forall k, In k l <->
+        exists m i, (m <= Z.to_nat depth)%nat /\ k = geo8 m + i /\
+          bin_lo ms depth (Z.of_nat m) i < e /\ b < bin_hi ms depth (Z.of_nat m) i.
+Proof. exact csi_model_bins_exact_gen. Qed.
+Print Assumptions csi_model_bins_exact.
+
+Theorem bai_model_bins_exact :
+  forall b e, 0 <= b < 2 ^ 29 -> 1 <= e <= 2 ^ 29 ->
+    exists l, overlapping_bins_for b e = Ok l /\ NoDup l /\
+      forall k, In k l <->
+        exists m i, (m <= 5)%nat /\ k = geo8 m + i /\
+          bin_lo 14 5 (Z.of_nat m) i < e /\ b < bin_hi 14 5 (Z.of_nat m) i.
+Proof. exact bai_model_bins_exact_gen. Qed.
+Print Assumptions bai_model_bins_exact.
 
 (** The default CSI geometry is the BAI scheme: same bins, same lists. *)
 Theorem csi_default_is_bai :
